@@ -712,7 +712,12 @@ R_<TG_, TA_>::load(ReadStream& stream) noexcept {
 	TransitionSets emptyTransitions;
 	PlanControl control{_core, emptyTransitions};
 
+	// exits and enters performed by the commit rewrite the resumable prongs - keep the loaded ones
+	const CompoForks resumable = _core.registry.compoResumable;
+
 	_apex.deepChangeToRequested(control);
+
+	_core.registry.compoResumable = resumable;
 
 	HFSM2_IF_STRUCTURE_REPORT(udpateActivity());
 }
